@@ -52,7 +52,16 @@ type Spec struct {
 	Show  func(v interface{}) string
 }
 
+// defined integer types: reflect.StructOf/ArrayOf cannot create them, and a
+// decoder that switches on Kind() loses them (Decode(Encode(v)) != v).
+type namedU8 uint8
+type namedI16 int16
+type namedU32 uint32
+type namedI64 int64
+
 var primTypes = map[string]reflect.Type{
+	"nu8": reflect.TypeOf(namedU8(0)), "ni16": reflect.TypeOf(namedI16(0)),
+	"nu32": reflect.TypeOf(namedU32(0)), "ni64": reflect.TypeOf(namedI64(0)),
 	"u8": reflect.TypeOf(uint8(0)), "u16": reflect.TypeOf(uint16(0)),
 	"u32": reflect.TypeOf(uint32(0)), "u64": reflect.TypeOf(uint64(0)),
 	"i8": reflect.TypeOf(int8(0)), "i16": reflect.TypeOf(int16(0)),
@@ -340,7 +349,12 @@ func Interp(toks []string) string {
 		buf = buf[:len(buf):len(buf)]
 		d := try(func() string {
 			n, dv := sp.Enc.Decode(buf)
-			return fmt.Sprintf("%d %s", n, sp.Show(dv))
+			out := fmt.Sprintf("%d %s", n, sp.Show(dv))
+			if dv != nil && sp.Type != nil && reflect.TypeOf(dv) != sp.Type && reflect.TypeOf(dv).Kind() != reflect.Slice {
+				// Decode must give back a value of the encoder's type
+				out += "!type=" + reflect.TypeOf(dv).String()
+			}
+			return out
 		})
 		if d == "panic" {
 			d = "panic panic"
@@ -502,7 +516,7 @@ func boundaries(w int) []uint64 {
 	return out
 }
 
-var typeLeaves = []string{"u8", "u16", "u32", "u64", "i8", "i16", "i32", "i64"}
+var typeLeaves = []string{"u8", "u16", "u32", "u64", "i8", "i16", "i32", "i64", "nu8", "ni16", "nu32", "ni64"}
 
 // RandType returns a random fixed-size type term of bounded depth and its number of leaves.
 func RandType(r interface{ Intn(int) int }, depth int) (string, int) {
